@@ -269,6 +269,13 @@ pub fn family_member(t: &Tables, rng: &mut StdRng, fi: usize) -> Option<BoardSta
                 if cr == 0 {
                     continue;
                 }
+                // often a second rook of a side that may castle, away from home on the a- or h-file (a rook that is not
+                // THE rook moves, is captured, captures)
+                if rng.gen_bool(0.4) {
+                    let white = if roam { stm == 0 } else { rng.gen_bool(0.5) };
+                    let sq = 8 * rng.gen_range(2..=5u32) + if rng.gen_bool(0.5) { 1 } else { 8 };
+                    put(&mut pcs, &mut used, sq, if white { 4 } else { 10 });
+                }
                 for _ in 0..rng.gen_range(1..=3) {
                     let kind = [2u32, 3, 3, 4, 5][rng.gen_range(0..5)];
                     let col = rng.gen_range(0..2u32);
@@ -346,7 +353,7 @@ pub fn family_member(t: &Tables, rng: &mut StdRng, fi: usize) -> Option<BoardSta
 
 #[allow(clippy::too_many_arguments)]
 fn bfs(t: &Tables, out: &mut Shards, shard: usize, board: &BoardState, par: u64, via: usize, depth: usize, budget: &mut usize,
-       fen: &str, texts: &mut Vec<String>, with_text: bool, n: &mut u64) {
+       fen: &str, texts: &mut Vec<String>, with_text: bool, n: &mut u64, with_tails: bool) {
     if *budget == 0 {
         return;
     }
@@ -356,11 +363,24 @@ fn bfs(t: &Tables, out: &mut Shards, shard: usize, board: &BoardState, par: u64,
     let line = out.emit(shard, &ev);
     *n += 1;
     if depth == 0 {
+        // a tail behind every third leaf of the seeded families: one reply, then the first side's moves once more (a
+        // right or a target that the first move left wrong shows in what that side may do NEXT, e.g. a castling move
+        // that has gone missing)
+        if with_tails && *n % 3 == 0 && !moves.is_empty() && *budget > 0 {
+            let j = (*n as usize * 7) % moves.len();
+            texts.push(printed_move(&moves[j]));
+            *budget -= 1;
+            let path2 = json!({"fen": fen, "texts": texts, "capsfrom": -1});
+            let (ev2, _) = gen_event(t, &moves[j], MoveGenerationMode::AllMoves, line, j + 1, with_text, "bfs", &path2);
+            out.emit(shard, &ev2);
+            *n += 1;
+            texts.pop();
+        }
         return;
     }
     for (j, m) in moves.iter().enumerate() {
         texts.push(printed_move(m));
-        bfs(t, out, shard, m, line, j + 1, depth - 1, budget, fen, texts, with_text, n);
+        bfs(t, out, shard, m, line, j + 1, depth - 1, budget, fen, texts, with_text, n, with_tails);
         texts.pop();
     }
 }
@@ -439,7 +459,7 @@ pub fn run(t: &Tables, seeds: &[String], dir: &str, nshards: usize, seed: u64, c
             };
             budget = per_seed;
             let mut texts: Vec<String> = Vec::new();
-            bfs(t, &mut out, si % nshards, &board, 0, 0, cfg.bfs_depth, &mut budget, fen, &mut texts, cfg.with_text, &mut n_bfs);
+            bfs(t, &mut out, si % nshards, &board, 0, 0, cfg.bfs_depth, &mut budget, fen, &mut texts, cfg.with_text, &mut n_bfs, false);
         }
     }
     // seeded geometric families (castling next to captures on the corners, en passant with pins, promotion with
@@ -448,9 +468,9 @@ pub fn run(t: &Tables, seeds: &[String], dir: &str, nshards: usize, seed: u64, c
     for fi in 0..cfg.family {
         if let Some(board) = family_member(t, &mut rng, fi) {
             let fen = to_fen(&board, 0, 1);
-            let mut budget = 80usize;
+            let mut budget = 100usize;
             let mut texts: Vec<String> = Vec::new();
-            bfs(t, &mut out, fi % nshards, &board, 0, 0, 1, &mut budget, &fen, &mut texts, cfg.with_text, &mut n_fam);
+            bfs(t, &mut out, fi % nshards, &board, 0, 0, 1, &mut budget, &fen, &mut texts, cfg.with_text, &mut n_fam, true);
         }
     }
     for i in 0..cfg.playouts {
